@@ -54,6 +54,9 @@ type CaseSpec struct {
 	Events int       `json:"events"`
 	Drop   bool      `json:"drop"`
 	SubLen int       `json:"sublen,omitempty"` // length of a long namespace to Subscribe to (0 = none)
+	// BusyUnsub > 0: that many events are queued inside the adapter behind a
+	// callback that blocks the listener; the subscription is then unsubscribed
+	BusyUnsub int `json:"busyunsub,omitempty"`
 }
 
 type completion struct {
@@ -366,6 +369,10 @@ func runCase(cs CaseSpec) (viols []string, classes map[string]int) {
 		evMu.Unlock()
 		classes["events"]++
 	}
+	if cs.BusyUnsub > 0 {
+		viols = append(viols, busyUnsubscribe(srv, cl, cs.BusyUnsub)...)
+		classes["unsubscribe_with_events_queued"]++
+	}
 	if cs.Drop {
 		srv.Drop()
 		select {
@@ -376,6 +383,71 @@ func runCase(cs CaseSpec) (viols []string, classes map[string]int) {
 		}
 	}
 	return viols, classes
+}
+
+// busyUnsubscribe: the listener is held inside a callback while n events for
+// another subscription arrive and queue up in the adapter; that subscription is
+// unsubscribed; the listener is released. At most one event (one the listener
+// had already taken when Unsubscribe was called - none here) may still reach
+// the callback after Unsubscribe has returned.
+func busyUnsubscribe(srv *Server, cl *resnats.Client, n int) (viols []string) {
+	entered, release := make(chan struct{}, 1), make(chan struct{})
+	blk, err := cl.Subscribe("event.blk", func(string, []byte, error) {
+		select {
+		case entered <- struct{}{}:
+		default:
+		}
+		<-release
+	})
+	if err != nil {
+		return []string{"Subscribe(event.blk) failed: " + err.Error()}
+	}
+	var mu sync.Mutex
+	unsubscribed := false
+	late := 0
+	y, err := cl.Subscribe("event.y", func(string, []byte, error) {
+		mu.Lock()
+		if unsubscribed {
+			late++
+		}
+		mu.Unlock()
+	})
+	if err != nil {
+		close(release)
+		return []string{"Subscribe(event.y) failed: " + err.Error()}
+	}
+	if !srv.Barrier(2 * time.Second) {
+		close(release)
+		return []string{"INCONCLUSIVE barrier"}
+	}
+	srv.Publish("event.blk.go", []byte("1"))
+	select {
+	case <-entered:
+	case <-time.After(2 * time.Second):
+		close(release)
+		return []string{"INCONCLUSIVE the blocking callback was not entered"}
+	}
+	for i := 0; i < n; i++ {
+		srv.Publish(fmt.Sprintf("event.y.e%d", i), []byte(fmt.Sprint(i)))
+	}
+	if !srv.Barrier(2 * time.Second) {
+		close(release)
+		return []string{"INCONCLUSIVE barrier"}
+	}
+	y.Unsubscribe()
+	mu.Lock()
+	unsubscribed = true
+	mu.Unlock()
+	close(release)
+	srv.Barrier(2 * time.Second)
+	time.Sleep(30 * time.Millisecond)
+	blk.Unsubscribe()
+	mu.Lock()
+	defer mu.Unlock()
+	if late > 0 {
+		viols = append(viols, fmt.Sprintf("%d of %d events that were queued in the adapter when Unsubscribe was called reached the callback after Unsubscribe had returned (the listener was held in another callback, so none was in delivery)", late, n))
+	}
+	return viols
 }
 
 func keys(m map[string]bool) []string {
@@ -412,6 +484,9 @@ func genCase(t *rapid.T) CaseSpec {
 	}
 	if rapid.Bool().Draw(t, "events") {
 		cs.Events = rapid.IntRange(1, 60).Draw(t, "nevents")
+	}
+	if rapid.IntRange(0, 2).Draw(t, "busyunsub") == 0 {
+		cs.BusyUnsub = rapid.IntRange(1, 20).Draw(t, "nqueued")
 	}
 	cs.Drop = rapid.IntRange(0, 2).Draw(t, "drop") == 0
 	if rapid.IntRange(0, 3).Draw(t, "sublong") == 0 {
